@@ -253,6 +253,8 @@ pub struct World {
     pub w_payload: Cell<[u32; 3]>,
     pub conn_done: RefCell<Vec<Option<String>>>,
     pub setup_error: RefCell<Option<String>>,
+    /// enumerated immediate / deferred mix (Plan::immediate_mask); empty = drawn per gate
+    pub immediate_mask: RefCell<Vec<bool>>,
 }
 
 impl World {
@@ -274,6 +276,7 @@ impl World {
             w_payload: Cell::new([1, 0, 0]),
             conn_done: RefCell::new(Vec::new()),
             setup_error: RefCell::new(None),
+            immediate_mask: RefCell::new(Vec::new()),
         })
     }
 
@@ -332,8 +335,19 @@ impl World {
             } else {
                 PayloadMode::Eager
             };
+            let masked = {
+                let m = self.immediate_mask.borrow();
+                if !m.is_empty() && matches!(kind, GateKind::Publish | GateKind::Proto) {
+                    let ordinal = self.gates.borrow().iter().filter(|g| matches!(g.kind, GateKind::Publish | GateKind::Proto)).count();
+                    Some(m.get(ordinal).copied().unwrap_or(false))
+                } else {
+                    None
+                }
+            };
             let imm = if self.auto_open.get() {
                 Some(Outcome::Ok)
+            } else if let Some(m) = masked {
+                if m { Some(Outcome::Ok) } else { None }
             } else if matches!(kind, GateKind::Publish | GateKind::Proto) && ch.chance(self.p_immediate.get(), 1000) {
                 let mut w = self.w_outcome.get();
                 if kind == GateKind::Proto {
